@@ -64,7 +64,7 @@ def run_case(case, res):
     cfg = dimwise.gen_config(rng, case.get("tier", "quick"))
     d = cfg["d"]
     f = hooks.VFunction([hooks.comp_smooth(case["seed"], d)])
-    err = hooks.RandErr(cfg["errseed"], cfg["profile"], d, cfg["a"], cfg["b"])
+    err = hooks.RandErr(cfg["errseed"], cfg["profile"], d, cfg["a"], cfg["b"], scale=cfg.get("errscale", 1.0))
     obs = Obs(res, cfg, err)
     c = dimwise.build(cfg, f, obs)
     dimwise.maybe_prior_run(rng, c, cfg, err, res)
